@@ -110,6 +110,16 @@ func (r *Run) loadFindings() {
 	}
 }
 
+// IsKnown reports whether key is the key of an open finding.
+func (r *Run) IsKnown(key string) bool {
+	for _, f := range r.findings {
+		if f.Status == "open" && f.Key == key {
+			return true
+		}
+	}
+	return false
+}
+
 // OpenFindings returns the open (unfixed) findings of this property.
 func (r *Run) OpenFindings() []Finding {
 	var out []Finding
